@@ -294,6 +294,9 @@ def c14(run, tier):
     finally:
         run.harness = saved
         del run.env["VERIF_CASE_CONC"]
+    # a tree nested 20000 / 30000 levels deep walked by 32 / 48 goroutines at once (anything the evaluator sums up across
+    # goroutines - depth guards, budgets - is hit here and nowhere else)
+    scale_family(run, "deepconc", "deep-tree-concurrent")
     import glob
     races = glob.glob(racelog + ".*")
     for rf in races[:5]:
